@@ -110,6 +110,9 @@ def run_query_property(prop, judge, imports, known_map, rule, assumptions, tier,
     if engine == "postgresql" and prop in ("C02", "C05", "C06", "C07", "C10"):
         import c08
         c08.history_subcheck(rep, prop, seed, 2500 if tier == "quick" else 20000)
+    if prop in ("C03", "C07"):
+        import mysqlq
+        mysqlq.mysql_subcheck(rep, prop, seed, 600 if tier == "quick" else 12000)
     if pre_finish is not None:
         pre_finish(rep, rng, tier)
     if getattr(rep, "proof_broken", None) and not rep.violations:
